@@ -926,10 +926,76 @@ class C11(SimSpec):
         return None
 
 
+# ----------------------------------------------------------------------------------------------- C15
+class C15(SimSpec):
+    prop = "C15"
+    n = {"quick": 200, "thorough": 2500}
+    task_timeout = 200
+    rule = (
+        "pipelines of 1-4 stages (1-4 jobs each, dependencies, failures, flags) created through PipelineManager.create_config_from_files and run with `jade pipeline submit`, "
+        "HPC and local mode, random schedules incl. user try-submit-jobs / show-status on the current stage; oracle on boundary events: stage k+1's config.json is first written only "
+        "after stage k was observed complete (lock-free observation and on-disk flag), each stage configured once, one submit-next-stage per completion, pipeline.json stage_num / "
+        "return codes / is_complete match what happened; non-trivial = >= 2 stages submitted and completed; distinct adds the number of stages"
+    )
+
+    def gen(self, rng, i, tier):
+        base = scenario.gen_scenario(rng, max_jobs=3)
+        ns = rng.choice([1, 2, 2, 3, 3, 4])
+        stages = []
+        for k in range(1, ns + 1):
+            sub = scenario.gen_scenario(rng, max_jobs=4, min_jobs=1, fail_p=0.4)
+            js = []
+            ren = {j["name"]: f"s{k}{j['name']}" for j in sub["jobs"]}
+            for j in sub["jobs"]:
+                js.append(dict(j, name=ren[j["name"]], blocked_by=[ren[b] for b in j["blocked_by"]], group="default"))
+            stages.append(js)
+        g = scenario.gen_groups(rng, 1)[0]
+        g.update(name="default", time_based=False, prefix="job", dsub=True, verbose=False)
+        scen = dict(base, jobs=[j for st in stages for j in st], stages=stages, groups=[g], kind="pipe")
+        scen["user"] = {"try_submit": rng.choice([0, 1, 2]), "show_status": rng.choice([0, 1])}
+        if i % 5 == 4:
+            scen["mode"] = "local"
+            scen["user"] = {}
+        return scen
+
+    def tasks(self, tier, seed):
+        out = SimSpec.tasks(self, tier, seed)
+        for t in out:
+            t["args"]["cls"] = "sim.pipe:PipeSim"
+            t["args"]["prepare"] = "sim.pipe:prepare"
+        return out
+
+    def shape(self, t, r):
+        return SimSpec.shape(self, t, r) + f"st{len(t['args']['scen']['stages'])}"
+
+    def nontrivial(self, t, r):
+        return (r.get("stages_submitted") or 0) >= 2 and r.get("pipeline_complete")
+
+    def sample(self, t, r):
+        sc = t["args"]["scen"]
+        return {"stages": [[f"{j['name']}<-{','.join(j['blocked_by'])} rc={j['rc']}" for j in st] for st in sc["stages"]], "mode": sc.get("mode"), "seed": t["args"]["seed"],
+                "observed": dict(run_brief(r), stages_submitted=r.get("stages_submitted"), next_stage_cmds=r.get("next_stage_cmds"), pipeline_complete=r.get("pipeline_complete"))}
+
+    def counters(self, tasks, results):
+        c = self.base_counters(tasks, results)
+        ok = [r for r in results if not r.get("error")]
+        c["stages_submitted"] = total(ok, "stages_submitted")
+        c["submit_next_stage_commands_checked"] = total(ok, "next_stage_cmds")
+        c["pipelines_completed"] = sum(1 for r in ok if r.get("pipeline_complete"))
+        c["stages_per_pipeline"] = hist(len(t["args"]["scen"]["stages"]) for t in tasks)
+        c["local_mode_runs"] = sum(1 for t in tasks if t["args"]["scen"].get("mode") == "local")
+        return c
+
+    def floors(self, cov):
+        if cov.get("submit_next_stage_commands_checked", 0) < 100:
+            return "fewer than 100 submit-next-stage commands observed"
+        return None
+
+
 def json_key(d):
     import json as _j
 
     return _j.dumps(d, sort_keys=True)
 
 
-SPECS = {c.prop: c for c in (C01, C02, C03, C04, C05, C06, C09, C11, C12, C13, C14, C16)}
+SPECS = {c.prop: c for c in (C01, C02, C03, C04, C05, C06, C09, C11, C12, C13, C14, C15, C16)}
